@@ -842,6 +842,16 @@ func (e *Engine) enterLoop(fr *frame, li *loopInfo, reach string, heap Heap, con
 			}
 		}
 	}
+	// ghost state "logged": whatever the earlier iterations logged stays logged
+	{
+		entryLogged := e.loggedTerm
+		if entryLogged == "" {
+			entryLogged = "false"
+		}
+		hl := e.sc.declare("logged_head", SBool)
+		e.sc.assume(implies(entryLogged, hl))
+		e.loggedTerm = e.sc.define("logged", SBool, ite(reach, hl, entryLogged))
+	}
 	hreach := e.sc.declare("r_loop", SBool)
 	// the loop head is reached only if the loop was entered
 	e.sc.assume(implies(hreach, reach))
@@ -850,12 +860,13 @@ func (e *Engine) enterLoop(fr *frame, li *loopInfo, reach string, heap Heap, con
 		_, cl := e.clauseOfPred(fr.fn, c.Call.StaticCallee().Name())
 		e.sc.assumeTagged(fmt.Sprintf("L%d.%s", clLoop(cl), clLabel(cl)), implies(hreach, t))
 	}
-	li2 := liState{heap: h.clone(), phis: hv, reach: hreach}
+	li2 := liState{heap: h.clone(), phis: hv, reach: hreach, logged: e.loggedTerm}
 	e.loopStates[li] = &li2
 	return hreach, h
 }
 
 type liState struct {
+	logged string
 	heap  Heap
 	phis  map[ssa.Value]Val
 	reach string
